@@ -44,7 +44,21 @@ theorem C01_trans_getAncestorHeight (h : Nat) : getAncestorHeight (h : Int) = ((
 theorem C01_trans_getAncestorHeight_nonpos (h : Int) (h0 : h ≤ 0) : getAncestorHeight h = 0 :=
   HL.trans_getAncestorHeight_nonpos h h0
 
+/-- **`areHeadersConnected`** (the link test `handleHeadersMsg` rejects unconnected batches with) is
+the model's `linked` over the headers' ids, for every hashing under which no header is the all-zero
+hash (the code's "not yet set" sentinel) and every table whose parent relation is `PrevBlock`. -/
+theorem C01_trans_areHeadersConnected (t : Tbl) (hash : Option T_wire_BlockHeader → GoInt.Atom)
+    (hs : List (Option T_wire_BlockHeader)) (hnz : ∀ h ∈ hs, hash h ≠ 0)
+    (hp : ∀ b ∈ hs, t.parent (hash b) = some (GoInt.deref b).PrevBlock) :
+    areHeadersConnected hs hash = linked t (hs.map hash) := by
+  rw [trans_areHeadersConnected hash hs hnz, hdrLinked_eq_linked t hash hs hp]
+
 /-! the hypotheses are satisfiable, and the translated functions compute -/
+example : areHeadersConnected [some { Version := 0, PrevBlock := 9, MerkleRoot := 0, Timestamp := 0, Bits := 0, Nonce := 1 },
+    some { Version := 0, PrevBlock := 1, MerkleRoot := 0, Timestamp := 0, Bits := 0, Nonce := 2 },
+    some { Version := 0, PrevBlock := 2, MerkleRoot := 0, Timestamp := 0, Bits := 0, Nonce := 3 }] (fun h => (GoInt.deref h).Nonce) = true := by decide
+example : areHeadersConnected [some { Version := 0, PrevBlock := 9, MerkleRoot := 0, Timestamp := 0, Bits := 0, Nonce := 1 },
+    some { Version := 0, PrevBlock := 7, MerkleRoot := 0, Timestamp := 0, Bits := 0, Nonce := 2 }] (fun h => (GoInt.deref h).Nonce) = false := by decide
 def exCpsT : List T_chaincfg_Checkpoint := [⟨1, 1⟩, ⟨5, 7⟩, ⟨9, 3⟩]
 example : CpsOkT exCpsT := ⟨by decide, by decide⟩
 example : findNextHeaderCheckpoint 5 exCpsT = some ⟨9, 3⟩ := by decide
